@@ -425,7 +425,10 @@ pub async fn run_case(case: Vec<String>) -> String {
                 req_counter += 1;
                 // optional third field: further header lines of the ACK (hex), e.g. a Contact - legal in an ACK, and not a target refresh
                 let ack_extra = a.get(2).map(|h| String::from_utf8(unhex(h)).unwrap()).unwrap_or_default();
-                let text = indialog("ACK", cseq, &format!("z9hG4bKack{}", req_counter), &local_tag, &ack_extra);
+                // a caller that predates the magic cookie sends its ACK under the INVITE's branch (RFC 2543 matching puts it on the INVITE
+                // server transaction, whose filter hands it up)
+                let ack_branch = if setup.contains("lbranch") { invite_branch.to_string() } else { format!("z9hG4bKack{}", req_counter) };
+                let text = indialog("ACK", cseq, &ack_branch, &local_tag, &ack_extra);
                 inject(&endpoint, &text, source, &tp);
             }
             "prack" => {
